@@ -224,7 +224,7 @@ def run(ctx):
                 tiers["T1"] += 1
                 ctx.ok(rule, "T1 %s  %s" % (s.key, s.detail[:120]), s.loc(), r)
                 continue
-            ent = T2.get(s.key)
+            ent = ledger.t2_lookup(T2, s)
             if ent:
                 reason = ent[1]
                 used_t2.add(s.key)
